@@ -354,10 +354,26 @@ func runC20(c *mon.Ctx) {
 			cs.Inconclusive("simulator-error")
 			continue
 		}
+		encIssuer := false
+		if !logout && r.IntN(8) == 0 {
+			// anyone can encrypt to the SP: an extra EncryptedAssertion whose plaintext is not an assertion at all but
+			// an Issuer (or another root-level field) element
+			plain := pick(r, []string{`<saml:Issuer xmlns:saml="` + sim.NSA + `">https://evil-idp.example/</saml:Issuer>`,
+				`<saml:Issuer xmlns:saml="` + sim.NSA + `"></saml:Issuer>`, `<samlp:Status xmlns:samlp="` + sim.NSP + `"><samlp:StatusCode Value="` + sim.StatusSuccess + `"/></samlp:Status>`})
+			if x, err := sim.EncryptedAssertionXML(&sim.EncSpec{DataAlg: pick(r, sim.DataAlgs), KeyAlg: sim.RSAOAEP, To: w.SPEnc}, []byte(plain), nil, nil); err == nil && strings.Contains(doc, "</samlp:Response>") {
+				i := strings.LastIndex(doc, "</samlp:Response>")
+				doc = doc[:i] + x + doc[i:]
+				encIssuer = true
+				cs.Desc("%s +encrypted-non-assertion", cs.Description())
+			}
+		}
 		cs.Input([]byte(doc))
 		sp, _, _ := NewSP(w.Now, signer)
-		if nonASCII || strings.Contains(cs.Description(), "shape=empty-issuer") {
+		if nonASCII || strings.Contains(cs.Description(), "shape=empty-issuer") || encIssuer {
 			sp.IdentityProviderIssuer = ""
+		}
+		if encIssuer {
+			sp.SPKeyStore = &RSAKeyStore{C: w.SPEnc}
 		}
 		sp.SkipSignatureValidation = skip || logout && r.IntN(2) == 0
 		level := sim.RawLevel
@@ -367,6 +383,30 @@ func runC20(c *mon.Ctx) {
 		cs.Nontrivial(fmt.Sprintf("%x", mon.Hash64(doc)))
 		c20Compare(cs, sp, sim.Encode(doc, level), logout)
 		c.Count("shape."+strings.TrimPrefix(strings.Fields(cs.Description())[1], "shape="), 1)
+	}
+
+	// (b2) very large messages presented uncompressed (a photo attribute): no limit applies to them in validation, so
+	// none may apply in the unverified decoders
+	for k, size := range []int{3 << 20, 8 << 20, 12 << 20}[:c.N(2, 3)] {
+		cs := c.Begin("large-raw", k)
+		if cs == nil {
+			continue
+		}
+		signer := w.IdP[2]
+		rec := sim.GenuineResponse(w.Env, 1)
+		rec.Assertions[0].HasAttrStmt = true
+		rec.Assertions[0].Attrs = append(rec.Assertions[0].Attrs, sim.AttrRec{Name: sim.S("jpegPhoto"), Values: []sim.AttrVal{{Value: strings.Repeat("QUJDREVGR0hJSktMTU5PUA==", size/24)}}})
+		rec.Sig = sim.DefaultSig(signer.Key, signer)
+		doc, err := sim.BuildResponse(rec, sim.PlainStyle())
+		if err != nil {
+			cs.Inconclusive("simulator-error")
+			continue
+		}
+		cs.Desc("root-signed Response of %d bytes presented uncompressed", len(doc))
+		cs.Input([]byte(trunc(doc, 2048)))
+		sp, _, _ := NewSP(w.Now, signer)
+		cs.Nontrivial(cs.Description())
+		c20Compare(cs, sp, base64.StdEncoding.EncodeToString([]byte(doc)), false)
 	}
 
 	// (c) the same root shapes on a root the IdP itself signed (shapes that survive a parse/serialise cycle)
